@@ -63,21 +63,24 @@ def dup_column_tables(q):
 
 
 def classify_diags(q, diags):
-    """known-finding id explaining ALL diagnostics of this RQ, or None"""
+    """known-finding id explaining ALL diagnostics of this RQ, or None.
+    F2 is returned for its class as well; it is recorded as fixed, so Check.disagreement reports it as a VIOLATION."""
     if not diags:
         return None
-    lax = [d for d in diags if c16_wf.lax_diag(d)]
-    rest = [d for d in diags if not c16_wf.lax_diag(d)]
+    sortsite = ("STakeSort", "SWinSort")
+    f1 = [d for d in diags if c16_wf.lax_diag(d)]
+    f2 = [d for d in diags if d[0] == "DForeign" and d[2] in sortsite]
+    rest = [d for d in diags if d not in f1 and d not in f2]
+    if f2:
+        return F2
     if rest:
         # F4: an id of a sub-pipeline whose declared columns repeat a name escapes un-redirected into the pipeline
         # that instantiates it
         leaked = dup_column_tables(q)
-        if all(d[0] == "DNotVisible" and d[3] in leaked and d[3] not in relation_defs_at(q, d[1]) for d in rest):
+        if all(d[0] == "DForeign" and d[3] in leaked for d in rest):
             return F4
         return None
-    # every diagnostic is a carried sort (Take.sort / Window.sort) naming a defined but invisible id
-    other = any(d[3] not in relation_defs_at(q, d[1]) for d in lax)
-    return F2 if other else F1
+    return F1
 
 
 def has_multi_input_relation(src):
@@ -187,7 +190,7 @@ def run():
         ck.count("rq-wf", p)
         for k in c16_wf.shape(q):
             ck.stat("rq-wf", "shape:" + k)
-        ck.stat("rq-wf", "wf" if not d else ("lax-only" if all(c16_wf.lax_diag(x) for x in d) else "NOT-WF"))
+        ck.stat("rq-wf", "wf" if not d else ("lax-only(F1)" if all(c16_wf.lax_diag(x) for x in d) else "NOT-WF"))
         if d:
             case = {"program": p, "diagnostics": [list(x) for x in d], "rq": rqcoq.to_coq(q)}
             ck.disagreement("the resolver emitted an RQ that violates the property: %s" % (d[:4],), case,
@@ -234,8 +237,10 @@ def run():
     # ---------------------------------------------------------------- 5. replay the recorded findings
     for f in ck.findings:
         src = (f.get("replay") or {}).get("src")
-        if f.get("status", "open") != "open" or not src or replay:
+        if not src or replay:
             continue
+        # fixed findings are replayed as well: if the defect is back, the classifier names a finding that is not open
+        # any more and Check.disagreement turns it into a VIOLATION
         a = harness("c16_rq", [{"src": src}], shards=1)[0]
         ck.count("finding-replay", src)
         if "ok" in a:
